@@ -87,26 +87,25 @@ def evaluate(prog, g, cfg, tr, r):
             fails.append('class %s: the startup rings hold %d instance(s), the startup instances are %d (missing %s, duplicated %s, order %s)' % (
                 prog.classes[c]['name'], len(flat), len(want), missing[:3], dup[:3], 'same' if sorted(flat) != sorted(want) or flat == want else 'differs'))
     r['fails'] += fails
-    r['stats'] = {'events': len(tr['events']), 'again_answers': nag, 'startup_rings': sum(len(b) for b in tr['batches'].values()),
-                  'startup_tasks': sum(len(x) for b in tr['batches'].values() for x in b)}
+    r['stats'].update({'events': len(tr['events']), 'again_answers': nag, 'startup_rings': sum(len(b) for b in tr['batches'].values()),
+                  'startup_tasks': sum(len(x) for b in tr['batches'].values() for x in b)})
 
 
 def run(ctx, res, cases=None):
     rng = pv.Rng(ctx.seed)
     corpus = pvptgrt.load_corpus(PROP)
     if cases is None:
-        progs = corpus + pvptgrt.shared_programs(ctx.seed, 8 if ctx.quick else 30)
+        progs = corpus + pvptgrt.shared_programs(ctx.seed, 8 if ctx.quick else 20)
         forced = None
     else:
         progs = [c[0] for c in cases]
         forced = {c[0].name: (c[1], c[2]) for c in cases}
     items, stats = pvptgrt.prepare(ctx, res, PROP, progs, ctx.quick)
-    ncfg = 5 if ctx.quick else 24
+    ncfg = 5 if ctx.quick else 6
     groups = []
     for k, (p, g, b, exe) in enumerate(items):
         cfgs = configs(ctx, rng.fork(1000 + k), ncfg)
-        if ctx.quick:
-            cfgs = cfgs[:3] if b == pvptg.BACKENDS[0] else cfgs[3:5]
+        cfgs = (cfgs[:3] if b == pvptg.BACKENDS[0] else cfgs[3:5]) if ctx.quick else (cfgs[:4] if b == pvptg.BACKENDS[0] else cfgs[4:6])
         if forced and forced.get(p.name, (None, None))[0]:
             fc, fb = forced[p.name]
             if fb and fb != b:
